@@ -405,7 +405,8 @@ c16_run(const c16_scn *scn, c16_out *out) {
 	if (0 == scn->dir && g_sp[1] >= 0) /* more data after the stop must not wake anything */
 		(void)!send(g_sp[1], "late", 4, MSG_DONTWAIT | MSG_NOSIGNAL);
 	out->hang |= fences(4);
-	usleep(2000 + (scn->timeout_ms ? MIN(1500u * scn->timeout_ms, 330000u) : 0)); /* a timer left armed by a 120/200 ms task would fire here */
+	/* a timer left armed by a 120/200 ms task would fire here (a 2 s timer could not be caught by a wait worth its price) */
+	usleep(2000 + ((0 != scn->timeout_ms && scn->timeout_ms <= 500) ? 1500u * scn->timeout_ms : 0));
 	out->hang |= fences(2);
 	tp_harness_disarm();
 	out->ncb = atomic_load(&g_ncb);
